@@ -241,11 +241,16 @@ func (e *env[T]) mergeFns(ins [][]T, o orderSpec, key string, outVariant int) {
 	// Merge
 	{
 		gs := make([]*gslice[T], len(ins))
-		its := make([]iterator.Iterator[T], len(ins))
+		plain := make([]iterator.Iterator[T], len(ins))
+		ids := make([]*idIter[T], len(ins))
 		for i, s := range ins {
 			gs[i] = guard(s, i%2, e.sent)
-			its[i] = iterator.Slice(gs[i].s)
+			ids[i] = &idIter[T]{id: i, items: gs[i].s}
+			plain[i] = ids[i]
 		}
+		var sentIt iterator.Iterator[T] = &idIter[T]{id: -1}
+		ol := guardOuter(plain, sentIt)
+		its := ol.s
 		var got []T
 		endedAgain := true
 		p := x.try("xsort.Merge", func() {
@@ -277,6 +282,23 @@ func (e *env[T]) mergeFns(ins [][]T, o orderSpec, key string, outVariant int) {
 				x.fail("xsort.Merge-modified-input", fmt.Sprintf("Merge(%s) modified input %d", in, i), nil)
 				return
 			}
+		}
+		// argument integrity: the caller's list still holds the iterators it put there, and each of
+		// them (used again through the list) is the drained iterator over its own input
+		if why := ol.changed(func(a, b iterator.Iterator[T]) bool { return a == b }); why != "" {
+			x.fail("xsort.Merge-modified-arguments", fmt.Sprintf("Merge(%s) modified the caller's variadic argument slice: %s", in, why), map[string]any{"input": in})
+			return
+		}
+		for i := range its {
+			v, ok := its[i].Next()
+			if it, isID := its[i].(*idIter[T]); !isID || it.id != i || it != ids[i] || ok {
+				x.fail("xsort.Merge-modified-arguments", fmt.Sprintf("Merge(%s): after the merge, the caller's input %d is not the drained iterator over its own input (Next yielded %v, %v)", in, i, v, ok), map[string]any{"input": in})
+				return
+			}
+		}
+		x.observe("argument integrity", "xsort.Merge")
+		if len(ins) >= 2 && len(ins[0]) == 0 && n > 0 {
+			x.observe("argument integrity", "xsort.Merge with an empty input that is not last")
 		}
 		if endedAgain {
 			x.observe("iterator end (recorded, not judged)", "xsort.Merge: Next stays false after the end")
@@ -326,7 +348,8 @@ func (e *env[T]) mergeFns(ins [][]T, o orderSpec, key string, outVariant int) {
 		}
 		var got []T
 		ino := in + ", out: " + outName
-		p := x.try("xsort.MergeSlices", func() { got = xsort.MergeSlices(less, out, args...) })
+		ol := guardOuter(args, []T{e.sent})
+		p := x.try("xsort.MergeSlices", func() { got = xsort.MergeSlices(less, out, ol.s...) })
 		mnt := ""
 		if nt != "" {
 			mnt = "MergeSlices" + nt + "|" + outName
@@ -344,6 +367,17 @@ func (e *env[T]) mergeFns(ins [][]T, o orderSpec, key string, outVariant int) {
 				return
 			}
 		}
+		if why := ol.changed(sameSlice[T]); why != "" {
+			x.fail("xsort.MergeSlices-modified-arguments", fmt.Sprintf("MergeSlices(%s) modified the caller's variadic argument slice: %s", ino, why), map[string]any{"input": ino})
+			return
+		}
+		for i := range ol.s {
+			if !eqSlice(ol.s[i], ins[i]) {
+				x.fail("xsort.MergeSlices-modified-arguments", fmt.Sprintf("MergeSlices(%s): the caller's input %d now reads %v", ino, i, show(ol.s[i])), nil)
+				return
+			}
+		}
+		x.observe("argument integrity", "xsort.MergeSlices")
 		if len(ins) == 3 && n >= 5 {
 			x.sample("mergeslices", func() map[string]any {
 				return map[string]any{"fn": "xsort.MergeSlices", "less": o.name, "in (items {key id})": fmt.Sprint(ins), "out": outName, "result": show(got)}
